@@ -1033,8 +1033,6 @@ theorem unlines_flat_any (width : Int) (ds : List DefSpec) :
     rw [List.flatMap_cons, unlines_append, ih, unlines_showWords]
     simp [linesText, wrappedLine, defHead, unlines]
 
-/-- the root scope `parse` returns -/
-def rootOf (objs : List Obj) : Obj := .scope { name := [], id := some 0 } objs
 
 theorem asStr_root (o : ShowOpts) (objs : List Obj) :
     asStr o (rootOf objs) = (showObjs o objs [] []).map unlines := by
